@@ -75,6 +75,20 @@ def main():
                             y = integ.step_fourier(jnp.asarray(s)[None, :].astype(lin.dtype))
                             out["items"].append({"key": ["etdrk", p, kind, dt, sname], "dtype": str(y.dtype), "y": enc(np.asarray(y)[0])})
             out["z"] = enc(Z)
+        elif task["kind"] == "discrete":
+            # discrete decisions (layout, masks, band limits) must not depend on the precision session
+            for N in task["Ns"]:
+                for D in ((1, 2) if N <= 40 else (1,)):
+                    W = np.asarray(ex.spectral.build_wavenumbers(D, N))
+                    dm = {}
+                    for fr in (2 / 3, 0.5):
+                        m = np.asarray(ex.nonlin_fun.PolynomialNonlinearFun(D, N, dealiasing_fraction=fr, coefficients=(0.0, 1.0)).dealiasing_mask)
+                        dm[str(round(fr, 3))] = int(m.sum())
+                    lp = [int(np.asarray(ex.spectral.low_pass_filter_mask(D, N, cutoff=c)).sum()) for c in range(0, N // 2 + 1)]
+                    sc = np.asarray(ex.spectral.build_scaling_array(D, N, mode="coef_extraction")) / float(N) ** D
+                    out["items"].append({"key": ["discrete", D, N], "wavenumbers_int": bool(np.all(W == np.round(W))), "wavenumber_sum_abs": float(np.sum(np.abs(np.round(W)))),
+                                         "dealias_counts": dm, "low_pass_counts": lp, "oddball_count": int(np.asarray(ex.spectral.oddball_filter_mask(D, N)).sum()),
+                                         "scaling_hist": sorted({round(float(v), 6) for v in sc.ravel()})})
         else:
             e = catalog.by_name()[task["entry"]]
             D, N = task["D"], task["N"]
